@@ -362,3 +362,30 @@ pub fn pattern_info(regex: &str, unicode: bool, ignore_case: bool) -> Result<(us
     hir_sexpr(p.hir(), &mut h);
     Ok((p.priority(), p.check_for_greedy_all(), h))
 }
+
+/// `ByteClass::merge` of two classes given as inclusive ranges, then `impl_with_cmp`, the sum of
+/// `count_ops` and `to_table` of the result.
+#[allow(clippy::type_complexity)]
+pub fn byteclass_ops(
+    a: &[(u8, u8)],
+    b: &[(u8, u8)],
+) -> (Vec<(u8, u8)>, Vec<(u8, u8, Vec<u8>)>, usize, Vec<bool>) {
+    use crate::graph::ByteClass;
+    let mut x = ByteClass {
+        ranges: a.iter().map(|&(l, h)| l..=h).collect(),
+    };
+    let y = ByteClass {
+        ranges: b.iter().map(|&(l, h)| l..=h).collect(),
+    };
+    x.merge(&y);
+    let cmps = x.impl_with_cmp();
+    let count = cmps.iter().map(|c| c.count_ops()).sum();
+    (
+        x.ranges.iter().map(|r| (*r.start(), *r.end())).collect(),
+        cmps.iter()
+            .map(|c| (*c.range.start(), *c.range.end(), c.except.clone()))
+            .collect(),
+        count,
+        x.to_table().to_vec(),
+    )
+}
